@@ -305,6 +305,8 @@ class Gen:
     def _give_default(self, f, base):
         r = self.rng
         t = f.t
+        if any(isinstance(n, Ann) for n in t.walk()):
+            return  # a default must be a value of the (constrained) type: keep such fields required
         if isinstance(base, Prim):
             f.default = r.choice(DEFAULTS[base.p])
         elif isinstance(base, Coll) and base.c in ("list", "seq", "coll", "mutseq", "blist"):
@@ -330,6 +332,8 @@ class Gen:
     def _field_cons(self, f, base):
         r = self.rng
         t = f.t
+        if f.has_default:
+            return  # the default would have to satisfy the constraint
         while isinstance(t, (Ann, NewT)):  # constraints are merged: two patterns cannot be (by design)
             if isinstance(t, Ann):
                 return
